@@ -34,7 +34,10 @@ OPS = ['bootstrap_sample', 'bootstrap_sample_rdm', 'bootstrap_sample_pattern', '
 
 def gen_plan(rng, tier, index):
     big = tier == 'thorough'
-    spec = gen.gen_rdms_spec(rng, n_rdm=(1, 8 if big else 6), n_cond=(3, 11 if big else 9))
+    if rng.chance(0.05):
+        spec = gen.gen_rdms_spec(rng, n_rdm=(9, 20), n_cond=(17, 26))      # beyond the sizes where sorts / look-ups switch algorithms
+    else:
+        spec = gen.gen_rdms_spec(rng, n_rdm=(1, 8 if big else 6), n_cond=(3, 11 if big else 9))
     n_ops = rng.randint(1, 8 if big else 6)
     ops = []
     for _ in range(n_ops):
